@@ -914,6 +914,6 @@ pub fn check() -> Check {
         "Configurations: generated TransactionValidationConfig with small limits (2/3 of cases), babylon, cuttlefish; validator bound to a network or network-agnostic. A V1 transaction or a V2 transaction with 0-3 (up to 6 for depth probes) subintents is drawn inside all limits, then 0-2 dimensions are moved to limit-1 / limit / limit+1: network id, epoch window (empty, reversed, max-1, max, max+1), tip percentage / basis points (min-1, min, max, max+1), mime / plaintext / encrypted lengths, decryptor count (split over curves), malformed decryptor maps, instruction count, references per intent and in total, blob count, signatures per intent and total signature validations, timestamp window, touching / one-epoch-overlap / disjoint epoch windows across intents, timestamp-only empty intersections, subintent chain depth, V2 not allowed. Oracle: a transcription of the property statement over those numbers: accepted iff no condition is violated; when exactly one family of conditions is violated the error belongs to that family; overall_validity_range equals the harness's intersection. Non-trivial = at least one dimension placed on a boundary.",
     )
     .assume("epochs stay far below u64::MAX (the code rejects windows whose start + max range overflows; the statement does not require that)")
-    .part(Part::new("limits", 300_000, 12_000_000, 400, case))
+    .part(Part::new("limits", 2_000_000, 60_000_000, 400, case))
     .min_nontrivial_pct(50.0)
 }
